@@ -28,8 +28,8 @@ def obligations(tier):
         obs.append(Ob(f"C09.torn.{c07.tag(*inst)}", "X",
                       "open_image with any options from any state with at least one torn index: returns the uncached group (never raises), writes only "
                       "when asked; after create_cache=True the local index is complete and decodes to the group",
-                      c07.FUNCS, bounds=f"forall local, adjacent in {{absent, complete, torn}}, cut 0<=k<len, len>=2 (unbounded), use_cache, create_cache; lines={inst[0]}, rpc={inst[1]}",
-                      harness="harness/h_cache.py", func="torn_ok", params=c07.params(*inst), timeout=to))
+                      c07.FUNCS, bounds=f"forall local, adjacent in {{absent, complete, torn}}, cut 0<=k<len, len>=2 (unbounded), cut inside a multi-byte character or not, use_cache, create_cache, protocol; lines={inst[0]}, rpc={inst[1]}",
+                      harness="harness/h_cache.py", func="torn_ok", params=c07.params(*inst), timeout=3 * to))
     d_insts = [(2, [1, 2, 3], [1], "IU2", None)] if tier == "quick" else [(3, [1, 2, 3, 4, 1024], [2], "IU2", None), (2, [1, 2, 3], [1], "C*8", c07.IMG11)]
     for inst in d_insts:
         obs.append(Ob(f"C09.default.{c07.tag(*inst)}", "X",
@@ -57,10 +57,18 @@ def ob_e2e(tier):
                     if r.get("reproduced"):
                         r.update(local=local, adjacent=remote, frac=frac, use_cache=use, create_cache=create)
                         bad.append(r)
+    # level 1.1 (its units contain non-ASCII characters): byte-level crash points, also inside a multi-byte character if the index has one
+    for local, remote in ((2, 0), (0, 2), (2, 2)):
+        for mid in (False, True):
+            r = api.cache_states(local, remote, 0.4, True, False, level="1.1", midchar=mid)
+            runs += 1
+            if r.get("reproduced"):
+                r.update(local=local, adjacent=remote, level="1.1", midchar=mid)
+                bad.append(r)
     res = {"verdict": "violated" if bad else "discharged", "queries": runs, "replays": runs}
     if bad:
         res["cex"] = bad[:3]
-        res["finding_key"] = "C09.e2e:" + ";".join(f"{b['local']}/{b['adjacent']}/{b['frac']}" for b in bad[:4])
+        res["finding_key"] = "C09.e2e:" + ";".join(f"{b['local']}/{b['adjacent']}/{b.get('frac', 'byte')}" for b in bad[:4])
     return res
 
 
